@@ -108,6 +108,48 @@ def attempt(sess, suite, n, t, kind_ids, nsign, cheaters_idx, wkind):
     sess.count("cancelled" if total == 0 and bad else "not-cancelled")
 
 
+def off_polynomial(sess, suite):
+    """one signer's key pair is off the group polynomial but listed CONSISTENTLY in the public key package: every share passes
+    its individual check, yet the sum is not a signature under the group key — nothing may be released, nobody can be named"""
+    rng = sess.rng
+    fld = Fld(suite)
+    start = len(sess.records)
+    rp = lambda: [x[0] for x in sess.records[start:]]
+    r, shares, pkp = dealer(sess, suite, 5, 3)
+    kps = keypkgs(sess, suite, shares)
+    ids = sorted(kps.keys(), key=lambda h: fld.dec(h))
+    signers = sorted(rng.sample(ids, 3), key=lambda h: fld.dec(h))
+    j = rng.choice(signers)
+    pk = pkp_fields(pkp)
+    G = sess.call("split %s key=%s n=2 t=2 ids=default tape=%s" % (suite, fld.enc(1), sess.tape(256)), NONE, "generator")
+    s2 = fld.rand(rng)
+    Y2 = sess.call("msm %s scalars=%s elems=%s" % (suite, fld.enc(s2), pkp_fields(G["pkp"])["vk"]), EXACT, "msm")
+    if not Y2.ok or Y2["v"] == "id":
+        return
+    k = kp_fields(kps[j])
+    kps2 = dict(kps)
+    kps2[j] = mk_kp(k["id"], fld.enc(s2), Y2["v"], k["vk"], k["min"])
+    vs = dict(pk["vshares"])
+    vs[j] = Y2["v"]
+    pkp2 = mk_pkp(vs, pk["vk"], pk["min"])
+    msg = rand_msg(rng)
+    comms, nonces, zs, resps = sign_round(sess, suite, kps2, signers, msg)
+    if not all(resps[i].ok for i in signers):
+        return
+    for i in signers:
+        v = sess.call("verify_share %s id=%s Y=%s z=%s msg=%s comms=%s vk=%s" % (suite, i, vs[i], zs[i], msg, comms, pk["vk"]), CLASS, "verify_share")
+        sess.oracle(v.ok, "a share that matches the verifying share listed for its signer was rejected (%s)" % v.raw, rp())
+    for mode in ("disabled", "first", "all"):
+        a = aggregate(sess, suite, msg, comms, zs, pkp2, mode, EXACT)
+        if a.ok:
+            v = verify(sess, suite, pk["vk"], msg, a["sig"])
+            sess.oracle(v.ok, "aggregate (%s) released a signature that does not verify (every share passed individually, the sum is invalid)" % mode, rp())
+        else:
+            sess.oracle(a.err == "InvalidSignature" and a.culprits() == [], "aggregate (%s) on individually valid shares with an invalid sum: expected InvalidSignature naming nobody, got %s" % (mode, a.raw[:70]), rp())
+        sess.case("offpoly|%s|%s|%s" % (suite, comms, mode), nontrivial=True)
+    sess.count("off-polynomial signer")
+
+
 def mismatches(sess, suite):
     """identifier-set mismatches between package, shares and public key package"""
     rng = sess.rng
@@ -161,6 +203,7 @@ def generate(sess):
                             continue
                         attempt(sess, suite, n, t, rng.choice(ID_KINDS), nsign, list(ch), wk)
         mismatches(sess, suite)
+        off_polynomial(sess, suite)
     for rep in range(4 if thorough else 1):
         for suite in REAL_SUITES:
             # the structured kinds (sign of the nonce part flipped) always run: the Taproot share check has a parity branch
@@ -169,6 +212,7 @@ def generate(sess):
                 k = rng.randrange(2 if wk == "cancel" else 1, nsign + 1)
                 attempt(sess, suite, nsign + 1, 2, rng.choice(ID_KINDS), nsign, sorted(rng.sample(range(nsign), k)), wk)
             mismatches(sess, suite)
+            off_polynomial(sess, suite)
 
 
 def search(sess, disagreements):
